@@ -108,14 +108,16 @@ def run_kani(eng, prop, tier, seed):
 def replay_witness(w):
     """run the recorded concrete input on the real code (plain cargo build of the driver crate)"""
     crate = _prep_crate(os.path.join(VERIF, w['driver']), 'replay_' + w['driver'].replace('/', '_'))
-    env = _env(); env['CARGO_TARGET_DIR'] = os.path.join(BUILD, 'replay-target')
+    env = _env(); env['CARGO_TARGET_DIR'] = os.path.join(BUILD, w.get('target', 'replay-target'))
     args = [str(v) for v in w['args'].values()]
     cmd = ['cargo', 'run', '--offline', '-q', '--bin', w.get('bin', 'replay'), '--'] + args
     try:
         p = subprocess.run(cmd, cwd=crate, env=env, capture_output=True, text=True, timeout=1800)
     except subprocess.TimeoutExpired:
         return {'reproduced': None, 'output': 'timeout'}
-    return {'reproduced': p.returncode == 1, 'rc': p.returncode, 'output': (p.stdout + p.stderr)[-1500:], 'cmd': ' '.join(cmd)}
+    # exit 1 = the driver found / reproduced a violation; exit 101 = the driver itself panicked inside the real code
+    # (an uncaught panic of the code under test is a crash on that input)
+    return {'reproduced': p.returncode in (1, 101), 'rc': p.returncode, 'output': (p.stdout + p.stderr)[-1500:], 'cmd': ' '.join(cmd)}
 
 
 def run_rustc_traits(eng, prop, tier, seed):
